@@ -44,6 +44,22 @@ def strategy(tier):
     return _case(tier)
 
 
+def fixed_cases(tier):
+    """Seed independent: three permanent 2-option choices (plus a nested one); every constraint type over 2 and over 3 of
+    them (PERMUTATION / UNORDERED_NOREPL over 3 are unsatisfiable: the copy is left with option-less choices), each
+    followed by derive / decode operations"""
+    nodes = {n: {'k': 'gen'} for n in ['r', 'a0', 'a1', 'b0', 'b1', 'c0', 'c1', 'd0', 'd1']}
+    spec = {'salt': 0, 'nodes': nodes, 'edges': [],
+            'choices': [{'id': 'ca', 'origin': 'r', 'opts': ['a0', 'a1']}, {'id': 'cb', 'origin': 'r', 'opts': ['b0', 'b1']},
+                        {'id': 'cc', 'origin': 'r', 'opts': ['c0', 'c1']}, {'id': 'cd', 'origin': 'a0', 'opts': ['d0', 'd1']}],
+            'incompat': [], 'start': ['r'], 'conns': [], 'cons': []}
+    for ctype in range(4):
+        for three in (0, 1):
+            c = ctype+4*three
+            for tail in (['copy', 0, 0, 0], ['apply_sel', 0, 0, 1], ['decode', 0, 3, 1]):
+                yield {'spec': spec, 'ops': [['constrain', 0, 0, c], tail, ['constrain', 1, 0, (c+1) % 8]]}
+
+
 def snapshot(b, g):
     from adsg_core.graph.adsg_nodes import SelectionChoiceNode, ConnectionChoiceNode
     snap = {}
